@@ -706,6 +706,15 @@ func rootVersion(sn *Snap, repo string) int {
 	return -1
 }
 
+func hasMerge(sn *Snap, repo string) bool {
+	for _, m := range sn.Nodes {
+		if m.Repo == repo && len(m.Parents) > 1 {
+			return true
+		}
+	}
+	return false
+}
+
 func isHead(sn *Snap, n Node) bool { return !hasBranchChild(sn, n) }
 
 // a reference to node n as a well-behaved client could type it: the full UUID, a long prefix, or
@@ -726,7 +735,10 @@ func (g *gen) ref(sn *Snap, n Node) SX {
 		if b == "" {
 			b = "master"
 		}
-		if g.rng.Chance(0.2) {
+		// branch~n walks the branch from a node found by ranging over a Go map: once a merge has
+		// given master several lineages the answer depends on iteration order, so only ask then
+		// for named branches
+		if g.rng.Chance(0.2) && (n.Branch != "" || !hasMerge(sn, n.Repo)) {
 			return Cat(T(rv), L(":"+b+"~0"))
 		}
 		return Cat(T(rv), L(":"+b))
@@ -750,6 +762,9 @@ func (g *gen) bogusRef(sn *Snap) SX {
 	case 5:
 		return Cat(T(n.VersionID), L(":nosuchbranch"))
 	case 6:
+		if hasMerge(sn, n.Repo) {
+			return Cat(T(n.VersionID), L(":master~x"))
+		}
 		return Cat(T(n.VersionID), L(":master~"+strconv.Itoa(g.rng.Intn(4))))
 	case 7:
 		return Cat(P(n.VersionID, 5), L(":"))
@@ -1316,7 +1331,7 @@ func main() {
 	for _, steps := range corpus() {
 		add("corpus", runSeq(lib.NewRand(o.Seed), replayList(steps)))
 	}
-	budget, maxSeq := 125000, 300
+	budget, maxSeq := 145000, 300
 	if o.Thorough() {
 		budget, maxSeq = 1100000, 3000
 	}
